@@ -5,5 +5,5 @@ From GV Require Import Model.RecvLedger.
 Extraction Language OCaml.
 Definition force_types : Z * N * nat := (Z.of_N (N.of_nat (Z.to_nat 0%Z)), 0%N, 0%nat).
 Extraction "../build/ml/mC08.ml" force_types trace init received credited dropped held
-  received_conn credited_conn dropped_conn held_conn lookup legal
+  received_conn credited_conn dropped_conn held_conn forfeited forfeited_conn queued lookup lookup_live legal
   configure connection_made advertised_conn advertised_stream.
